@@ -25,6 +25,9 @@ CLAIMED = {
  "C05": dict(level="proof", design="3/C05", tech="bit-provenance and polynomial value-numbering abstract interpretation over inlined LLVM IR (memory effects, call sequences)",
    text="Over the cross product (value/C++ reference, planar reference, packed pixel, bit-aligned reference) x (every layout of rgb/rgba/cmyk/gray), assignment and converting construction are interpreted in the bit-provenance domain: each destination cell of a colour receives exactly the source cell of the same colour, every destination cell is written once and nothing else is; equality is the conjunction of same-colour comparisons; at_c/semantic_at_c/get_color/operator[]/dynamic_at_c addresses follow the documented mapping; static_for_each/transform/fill/generate (every const/non-const overload, 1-3 arguments, mixed layouts) call an opaque functor exactly once per channel with same-colour cells. The colour<->cell map comes from spec/c05_layouts.json, not from the code.",
    note="Trusted: clang front end, LLVM inliner/SROA/mem2reg, harness/ir/bits.py + poly.py, spec/c05_layouts.json, little-endian target. Assumes distinct argument objects do not alias. static_min/max and device_n layouts beyond the default are not enumerated."),
+ "C01": dict(level="other", design="3/C01", tech="polynomial value numbering (allocation and address formulas incl. allocator call arguments) and bit-provenance footprint analysis over inlined LLVM IR",
+   text="Decides the structural necessary conditions of in-buffer access for all dimensions/alignments at once: (1) address law of interleaved_view/planar_*_view; (2) for image<> over interleaved, planar, 16-bit, float, packed and bit-aligned pixels, at every construction site (size/fill/copy/move/view constructors, assignment, the three branches of every recreate overload) the cell polynomial of view(img)(x,y) -- including the byte count passed to the allocator -- equals the documented mechanism, and deallocate receives the allocated pointer and size; (3) byte footprint of packed/bit-aligned channel access inside the pixel's own bytes. With 0<=x<w, 0<=y<h these premises give the in-buffer lemma. Part (3) reports the library's genuine over-wide bit-field access as known findings.",
+   note="Level 'other': necessary conditions, not the whole property. Trusted: clang front end, LLVM inliner/SROA/mem2reg/full unrolling, harness/ir/poly.py + bits.py; boost::gil::align is uninterpreted on both sides (its multiple-of-a contract is checked separately); *_pixels algorithms do not modify the image object. Not decided: that iterators and algorithms visit only in-range coordinates; overflow of w*h*step."),
 }
 NA_REASON = {
  "C19": "sums over hash-map contents filled in data-dependent loops; no static domain in reach relates container contents to pixel counts (DESIGN 3/C19)",
